@@ -31,6 +31,7 @@ def run(c):
     r3(c)
     r4(c)
     r5(c)
+    r6(c)
 
 
 # ------------------------------------------------------------------ regex helpers
@@ -435,6 +436,8 @@ def reverse_site(c, m, node, scope, prefix_name, row_expr_txt, construct, rid="C
             lo = n.slice.lower
             if isinstance(lo, ast.Call) and call_name(lo) == "len" and fold(lo.args[0], env) == P_MARK + " ":
                 ok_strip = True
+        if isinstance(n, ast.Call) and isinstance(n.func, ast.Attribute) and n.func.attr == "removeprefix" and len(n.args) == 1 and fold(n.args[0], env) == P_MARK + " ":
+            ok_strip = True
         if isinstance(n, ast.Call) and call_name(n) == "re.sub" and len(n.args) >= 3:
             pat = fold(n.args[0], env)
             if pat in ("^" + P_MARK + "\\s+", "^" + P_MARK + " ") and fold(n.args[1], env) == "":
@@ -449,6 +452,30 @@ def reverse_site(c, m, node, scope, prefix_name, row_expr_txt, construct, rid="C
     c.check(rid, ok_prep, repo.loc(m, node), f"{construct}/prepend-arm", "the plain form is not negated as <prefix> + ' ' + row", key_text="prepend")
 
 
+def ordering_reverse_site(c, rid):
+    repo = c.repo
+    om = repo.module("annet.annlib.rbparser.ordering")
+    f3 = repo.func("annet.annlib.rbparser.ordering", "_compile_ordering")
+    # the reverse form may be computed inline or by a helper of the module that takes (row, prefix)
+    helper = None
+    for n in ast.walk(f3):
+        if isinstance(n, ast.Dict):
+            for k, v in zip(n.keys, n.values):
+                if isinstance(k, ast.Constant) and k.value == "reverse_regexp":
+                    for x in ast.walk(v):
+                        if isinstance(x, ast.Call) and isinstance(x.func, ast.Name) and isinstance(om.defs.get(x.func.id), ast.FunctionDef) and x.func.id != f3.name:
+                            h = repo.func("annet.annlib.rbparser.ordering", x.func.id)
+                            hp = [a.arg for a in h.args.args]
+                            pi = [i for i, a in enumerate(x.args) if norm(a) == f3.args.args[1].arg]
+                            ri = [i for i, a in enumerate(x.args) if i not in pi]
+                            if len(pi) == 1 and len(ri) == 1 and len(hp) == 2:
+                                helper = (h, hp[pi[0]], hp[ri[0]])
+    if helper and not any(isinstance(x, ast.Call) and isinstance(x.func, ast.Attribute) and x.func.attr == "startswith" for x in ast.walk(f3)):
+        reverse_site(c, om, helper[0], helper[0], helper[1], helper[2], "ordering.reverse_regexp", rid=rid)
+    else:
+        reverse_site(c, om, f3, f3, f3.args.args[1].arg, "attrs['row']", "ordering.reverse_regexp", rid=rid)
+
+
 def r2(c):
     repo = c.repo
     c.rule("C07.R2", "the three reverse-form siblings (rulebook.patching._make_reverse, rbparser.acl._make_reverse, the reverse_regexp of ordering._compile_ordering) each "
@@ -460,9 +487,7 @@ def r2(c):
     am = repo.module("annet.annlib.rbparser.acl")
     f2 = repo.func("annet.annlib.rbparser.acl", "_make_reverse")
     reverse_site(c, am, f2, f2, f2.args.args[1].arg, f2.args.args[0].arg, "acl._make_reverse")
-    om = repo.module("annet.annlib.rbparser.ordering")
-    f3 = repo.func("annet.annlib.rbparser.ordering", "_compile_ordering")
-    reverse_site(c, om, f3, f3, f3.args.args[1].arg, "attrs['row']", "ordering.reverse_regexp")
+    ordering_reverse_site(c, "C07.R2")
     c.count("functions", 3)
     # placeholder extent agreement
     star_macro = None
@@ -658,3 +683,50 @@ def r5(c):
     dflt = [r for r in rets if isinstance(r.value, ast.Dict)]
     ok = bool(dflt) and "DEFAULT_TIMEOUT" in norm(dflt[0].value) and dflt[0] is fn.body[-1]
     c.check("C07.R5", ok, repo.loc(m, fn), "match_deploy_rule/default", "the fallback is not the default rule with DEFAULT_TIMEOUT", key_text="default")
+
+
+# ------------------------------------------------------------------ R6
+def r6(c):
+    """the words of a rule end where its %parameters begin: both are decided in syntax._parse_raw_rule, once by a regex (which parameters), once by a cut (which words)"""
+    repo = c.repo
+    c.rule("C07.R6", "syntax._parse_raw_rule: the parameters are recognised by the rule language's parameter pattern (blank, `%`, a name, an optional `=value` without blanks; "
+                     "compared as regex syntax trees with the specification in sa/dsl.py) and the row text is cut at a delimiter at least as wide as that pattern's lead-in "
+                     "(the literal `%`, or a regex beginning like the parameter pattern): a narrower delimiter (one particular blank before `%`) leaves `%name` inside the row of "
+                     "a rule whose parameters are separated by a tab or a line continuation")
+    m = repo.module(SYNTAX)
+    fn = repo.func(SYNTAX, "_parse_raw_rule")
+    c.count("functions")
+    pv = Provenance(fn)
+    raw = fn.args.args[0].arg
+    fa = [x for x in calls_in(fn) if call_name(x) in ("re.findall", "re.finditer") and x.args and const(pv.resolve_alias(x.args[0]))]
+    if len(fa) != 1:
+        raise AnchorError("_parse_raw_rule: parameter pattern not found")
+    pat = const(pv.resolve_alias(fa[0].args[0]))
+    c.check("C07.R6", flat(pat) == flat(dsl.PARAM_RE.pattern), repo.loc(m, fa[0]), "_parse_raw_rule/param-pattern",
+            f"parameter pattern {pat!r} differs from the rule language's {dsl.PARAM_RE.pattern!r}", key_text="param-pattern")
+    lead = flat(pat)[:2]
+    # the cut: stores into the raw-rule variable whose value slices / partitions / splits it
+    cuts = []
+    for n in walk_no_nested(fn):
+        if isinstance(n, ast.Assign) and norm(n.targets[0]) == raw:
+            for x in ast.walk(n.value):
+                if isinstance(x, ast.Call) and isinstance(x.func, ast.Attribute) and x.func.attr in ("partition", "split", "index", "find", "rpartition") and x.args and norm(x.func.value) == raw:
+                    cuts.append((x, const(pv.resolve_alias(x.args[0])), "literal"))
+                elif isinstance(x, ast.Call) and call_name(x) in ("re.split", "re.search", "re.match") and x.args:
+                    cuts.append((x, const(pv.resolve_alias(x.args[0])), "regex"))
+                elif isinstance(x, ast.Name) and x.id != raw and isinstance(x.ctx, ast.Load):
+                    v = pv.resolve_alias(x)
+                    if isinstance(v, ast.Call) and isinstance(v.func, ast.Attribute) and v.func.attr in ("index", "find") and v.args and norm(v.func.value) == raw:
+                        cuts.append((v, const(pv.resolve_alias(v.args[0])), "literal"))
+                    elif isinstance(v, ast.Call) and call_name(v) in ("re.search", "re.match") and v.args:
+                        cuts.append((v, const(pv.resolve_alias(v.args[0])), "regex"))
+    cuts = [k for k in cuts if k[1] is not None]
+    if not cuts:
+        raise AnchorError("_parse_raw_rule: the cut of the row before its parameters not found")
+    for node, d, kind in cuts:
+        if kind == "literal":
+            ok = d == "%"
+        else:
+            ok = flat(d)[:2] == lead or flat(d) == flat("%")
+        c.check("C07.R6", ok, repo.loc(m, node), "_parse_raw_rule/row-cut", f"the row is cut at {d!r} ({kind}) while parameters are recognised after any blank (`\\s%`): a parameter written after a tab or a "
+                "continuation line is parsed as a parameter AND stays in the row text, so the rule's regexp demands the literal text `%name` and matches nothing", key_text="row-cut")
